@@ -6,8 +6,8 @@ import numpy as np
 import common as C
 
 PROP = "C03"
-LEAN_MODULES = ["AcryoVerif.Props.C03"]
-LEAN_SUPPORT = ["AcryoVerif.Model.Loader", "AcryoVerif.Model.Table", "AcryoVerif.Props.C12"]
+LEAN_MODULES = ["AcryoVerif.Props.C03", "AcryoVerif.Props.C03Batch"]
+LEAN_SUPPORT = ["AcryoVerif.Model.Loader", "AcryoVerif.Model.Table", "AcryoVerif.Model.Batch", "AcryoVerif.Props.C12"]
 KERNELS = ["batchTasksScatteredToMoleculeOrder", "groupByKeepsOrder", "mappingTasksZipRows", "dictIterrowsRowwise",
            "derivedLoadersDelegate", "batchReplacePrunesImages", "addTomogramFreshId", "groupDerivedAreLists",
            "groupIteratorPartitions"]
@@ -223,8 +223,99 @@ def run_history(ops):
     return " ; ".join(outs)
 
 
+# ---- image-table state machine (Model.Batch / C03Batch.history_lookup_own) -------------------------
+def _imgtab_gen(rng, depth=0):
+    """A random history of add_tomogram / filter / add_loader(batch) in the encoding of Model.parseOp,
+    together with a replayable structure. Explicit ids are chosen above every automatic id, never re-used."""
+    n_ops = int(rng.integers(2, 7)) if depth == 0 else int(rng.integers(1, 4))
+    ops, nmol, explicit = [], 0, 100 + 50 * depth + int(rng.integers(0, 5))
+    for j in range(n_ops):
+        kind = int(rng.choice([0, 0, 0, 1, 2, 3])) if depth == 0 else int(rng.choice([0, 0, 1]))
+        if j == 0 or (kind in (1, 3) and nmol == 0):
+            kind = 0
+        if kind == 0:
+            flag = int(rng.integers(0, 4) == 0)
+            explicit += 1
+            n = int(rng.integers(1, 4))
+            ops.append(("add", flag, explicit if flag else 0, int(rng.integers(1, 900)), n))
+            nmol += n
+        elif kind == 1:
+            mask = [int(rng.integers(0, 3) > 0) for _ in range(nmol)]
+            # sometimes drop one whole leading tomogram's molecules so that the table gets a gap
+            ops.append(("filter", mask))
+            nmol = sum(mask)
+        elif kind == 2:
+            sub, subn = _imgtab_gen(rng, depth + 1)
+            ops.append(("merge", sub))
+            nmol += subn
+        else:
+            ops.append(("mergeSelf",))
+            nmol *= 2
+        if nmol > 40:
+            break
+    return ops, nmol
+
+
+def _imgtab_encode(ops):
+    out = []
+    for op in ops:
+        if op[0] == "add":
+            out += [0, op[1], op[2], op[3], op[4]]
+        elif op[0] == "filter":
+            out += [1, len(op[1])] + list(op[1])
+        elif op[0] == "merge":
+            out += [2, len(op[1])] + _imgtab_encode(op[1])
+        else:
+            out += [3]
+    return out
+
+
+def _imgtab_run(ops, observe):
+    """The same history on the real BatchLoader. A tomogram is a 2x2x2 array filled with its tag."""
+    from acryo import BatchLoader, Molecules
+    ld = BatchLoader(order=0, scale=1.0, output_shape=(1, 1, 1))
+    outs = []
+    for op in ops:
+        if op[0] == "add":
+            img = np.full((2, 2, 2), float(op[3]), dtype=np.float32)
+            mol = Molecules(np.zeros((op[4], 3), dtype=np.float32))
+            ld.add_tomogram(img, mol, op[2] if op[1] else None)
+        elif op[0] == "filter":
+            keep = np.array(op[1], dtype=bool)
+            ld = ld.replace(molecules=ld.molecules.subset(np.flatnonzero(keep)))
+        elif op[0] == "merge":
+            ld.add_loader(_imgtab_run(op[1], False))
+        else:
+            ld.add_loader(ld.copy())
+        if observe:
+            ids = [int(x) for x in ld.molecules.features["image-id"].to_list()] if len(ld.molecules) else []
+            tab = ",".join(f"{int(k)}:{int(np.asarray(v)[0, 0, 0])}" for k, v in ld.images.items())
+            rows = " ".join(f"{i}:{int(np.asarray(ld.images[i])[0, 0, 0]) if i in ld.images else 999999}" for i in ids)
+            outs.append(f"[{tab}] | {rows}")
+    return " ; ".join(outs) if observe else ld
+
+
 def correspondence(rng, thorough):
     lines, impl, stats = [], [], {"histories": 0, "interleaved": 0, "ops": {}}
+    stats["imgtab"] = {"histories": 0, "merges": 0, "filters": 0, "explicit_ids": 0, "gapped_before_merge": 0}
+    fixed = [[("add", 0, 0, 10, 2), ("add", 0, 0, 20, 1), ("add", 0, 0, 30, 1), ("filter", [1, 1, 0, 1]),
+              ("merge", [("add", 0, 0, 40, 1), ("add", 0, 0, 50, 2)])],
+             [("add", 0, 0, 10, 1), ("merge", [("add", 0, 0, 20, 3), ("add", 0, 0, 30, 3), ("add", 0, 0, 40, 1)])],
+             [("add", 0, 0, 7, 2), ("add", 1, 5, 8, 1), ("add", 0, 0, 9, 1), ("mergeSelf",), ("filter", [0, 0, 1, 1, 1, 1, 1, 1]),
+              ("mergeSelf",)]]
+    for it in range(40 if thorough else 14):
+        ops = fixed[it] if it < len(fixed) else _imgtab_gen(rng)[0]
+        try:
+            out = _imgtab_run(ops, True)
+        except Exception as e:  # noqa: BLE001
+            out = C.exc_kind(e) + ":" + str(e)[:60]
+        st = stats["imgtab"]
+        st["histories"] += 1
+        st["merges"] += sum(o[0] in ("merge", "mergeSelf") for o in ops)
+        st["filters"] += sum(o[0] == "filter" for o in ops)
+        st["explicit_ids"] += sum(o[0] == "add" and o[1] for o in ops)
+        lines.append("m:imgtab " + " ".join(map(str, _imgtab_encode(ops))))
+        impl.append(out)
     for it in range(50 if thorough else 16):
         ops = gen_history(rng, int(rng.integers(2, 8)))
         out = run_history(ops)
